@@ -253,23 +253,38 @@ func rewriteFile(f *ast.File) {
 				body := append(append(pre, recv, brk), n.Body.List...)
 				c.Replace(&ast.ForStmt{Body: &ast.BlockStmt{List: body}})
 				stats["range chan"]++
-			} else if doMaps && orderedMapKey(n.X) && n.Tok != token.ASSIGN && pure(n.X) && !bodyWrites(n.Body, exprString(n.X)) {
+			} else if doMaps && orderedMapKey(n.X) && n.Tok != token.ASSIGN && pure(n.X) {
+				// for k, v := range m {B}  ==>
+				//   for _, k := range vrt.MapKeys(m) { v, ok := m[k]; if !ok { continue }; B }
+				// The keys are a snapshot taken when the loop starts, in the order the
+				// explorer chose; a key that the body (or anything it calls) has deleted
+				// by the time its turn comes is skipped, and keys inserted during the loop
+				// are not visited - both are behaviours Go allows for such a loop.
+				if n.Key == nil && n.Value == nil {
+					return true
+				}
+				if n.Value != nil {
+					if _, ok := n.Value.(*ast.Ident); !ok {
+						return true // unusual value expression: leave alone
+					}
+				}
 				var key *ast.Ident
 				if id, ok := n.Key.(*ast.Ident); ok && id.Name != "_" {
 					key = id
 				} else {
 					key = fresh("Key")
 				}
-				var pre []ast.Stmt
+				var val ast.Expr = ast.NewIdent("_")
 				if id, ok := n.Value.(*ast.Ident); ok && id.Name != "_" {
-					pre = append(pre, &ast.AssignStmt{Lhs: []ast.Expr{id}, Tok: token.DEFINE, Rhs: []ast.Expr{&ast.IndexExpr{X: n.X, Index: key}}})
-				} else if n.Value != nil {
-					if _, ok := n.Value.(*ast.Ident); !ok {
-						return true // unusual value expression: leave alone
-					}
+					val = id
 				}
-				if n.Key == nil && n.Value == nil {
-					return true
+				present := fresh("Ok")
+				pre := []ast.Stmt{
+					&ast.AssignStmt{Lhs: []ast.Expr{val, present}, Tok: token.DEFINE, Rhs: []ast.Expr{&ast.IndexExpr{X: n.X, Index: key}}},
+					&ast.IfStmt{Cond: &ast.UnaryExpr{Op: token.NOT, X: present}, Body: &ast.BlockStmt{List: []ast.Stmt{&ast.BranchStmt{Tok: token.CONTINUE}}}},
+				}
+				if bodyWrites(n.Body, exprString(n.X)) {
+					stats["range map (body writes the map)"]++
 				}
 				n.Key = ast.NewIdent("_")
 				n.Value = key
